@@ -343,6 +343,18 @@ def compare_struct(fail, pre, exp_fields, got, d_name):
                 gd = gd["enum"]
             if not (isinstance(ed, tuple) and ed[0] == "raw") and gd != ed:
                 fail(f"{fp}/default", ed, gd)
+        if e["default"] == "<absent>" and g["default"] != "<absent>" and not (e["kind"] == "struct" and not e["array"]):
+            # the definition states no default: a generated one must be the definition's IMPLICIT default for the type
+            # (protocol guide: 0 / false / "" / empty array, null for a nullable field) - anything else is invented
+            if e["array"]:
+                implicit = [[], None] if want_null else [[]]
+            elif want_null:
+                implicit = [None]
+            else:
+                implicit = [{"bool": False, "float64": {"float": 0.0}, "error_code": {"enum": 0}, "timedelta_i32": {"td_ms": 0},
+                             "timedelta_i64": {"td_ms": 0}, "string": "", "bytes": {"bytes": ""}, "records": None, "uuid": None}.get(e["type"], 0)]
+            if g["default"] not in implicit:
+                fail(f"{fp}/default-where-the-definition-states-none", f"no default, or the implicit one {implicit}", g["default"])
         if e["kind"] == "primitive" and not e["array"] and e["tag"] is not None and e["ignorable"] and e["default"] == "<absent>" \
                 and not want_null:
             # an ignorable tagged field of a type without null: implicit default = the type's zero value
